@@ -26,6 +26,14 @@ def validate_scheme(run, obj, arguments, label=None):
     pts = np.asarray(obj.points, dtype=float)
     w = np.asarray(obj.weights, dtype=float)
     order = arguments.get("order")
+    # bookkeeping attributes other code sizes its arrays from (fields, state variables): they describe the stored rule
+    np_attr, dim_attr = getattr(obj, "npoints", None), getattr(obj, "dim", None)
+    if np_attr is not None and dim_attr is not None:
+        if int(np_attr) == len(w) == len(pts) and pts.ndim == 2 and pts.shape[1] == int(dim_attr):
+            run.ok(mon, unit="scheme-attributes")
+        else:
+            run.fail(mon, "scheme=%s clause=npoints-dim-attributes" % (label or cls),
+                     "%s: npoints=%s, dim=%s do not describe the stored %s points / %d weights" % (label or cls, np_attr, dim_attr, pts.shape, len(w)))
     if cls == "BazantOh":
         label = label or "BazantOh(n=%s)" % arguments.get("n", 21)
         tol = TABLE_TOL[cls]
